@@ -381,9 +381,20 @@ Definition cfg_step (c : tcfg) (w : wire) : tcfg :=
   else if k =? 6 then {| t_map := t_map c; t_ubin := t_ubin c; t_heap := t_heap c; t_fl := t_fl c; t_fails := t_fails c;
                          t_oracle := t_oracle c; t_seen_start := true |}
   else c.
+(* SEGFILL len seed: filler bytes b_i = (x_i + hi_i) & 255, x_{i+1} = (5 x_i + 113) & 255, hi steps every 256 bytes *)
+Fixpoint fill (n : nat) (x lo hi : Z) : list Z :=
+  match n with
+  | O => []
+  | S n' => Z.land (x + hi) 255 ::
+            (if lo =? 255 then fill n' (Z.land (x * 5 + 113) 255) 0 (Z.land (hi + 1) 255)
+             else fill n' (Z.land (x * 5 + 113) 255) (lo + 1) hi)
+  end.
+Definition segfill (l seed : Z) : list Z :=
+  fill (Z.to_nat (Z.min l 65535)) (Z.land seed 255) 0 (Z.land (Z.shiftr seed 8) 255).
 Definition evs_of_wire (ws : list wire) : list event :=
   flat_map (fun w : wire => let '(k, a, b) := w in
-              if k =? 6 then [Start] else if k =? 7 then [Seg b] else if k =? 8 then [Disc] else []) ws.
+              if k =? 6 then [Start] else if k =? 7 then [Seg b] else if k =? 8 then [Disc]
+              else if k =? 10 then [Seg (segfill (nth 0 a 0) (nth 1 a 0))] else []) ws.
 Definition run_wire (fx : fixes) (ws : list wire) : list wire :=
   let c := fold_left cfg_step ws tcfg0 in
   let orc := t_oracle c in
